@@ -1,5 +1,491 @@
 package main
 
-import "time"
+import (
+	"encoding/json"
+	"fmt"
+	"os"
+	"os/exec"
+	"path/filepath"
+	"regexp"
+	"sort"
+	"strconv"
+	"strings"
+	"sync"
+	"time"
+)
 
-func runProperty(ctx *Ctx, o *Options, t0 time.Time) int { return 2 }
+type KnownFinding struct {
+	Property   string `json:"property"`
+	Obligation string `json:"obligation"`
+	Witness    string `json:"witness"`
+	Status     string `json:"status"` // open | fixed
+	Commit     string `json:"commit,omitempty"`
+	What       string `json:"what"`
+}
+
+type oblReport struct {
+	Name      string   `json:"name"`
+	Instances int      `json:"instances"`
+	Result    string   `json:"result"`
+	Backends  []string `json:"backends"`
+	SolverS   float64  `json:"solver_s"`
+	Clause    string   `json:"clause,omitempty"`
+	Where     string   `json:"where,omitempty"`
+	SMTBytes  int      `json:"smt_bytes,omitempty"`
+}
+
+type funcResult struct {
+	key  string
+	ex   *Exec
+	skip string
+}
+
+func hasProp(list []string, p string) bool {
+	for _, x := range list {
+		if x == p {
+			return true
+		}
+	}
+	return false
+}
+
+func contractServes(fc *FuncContract, p string) bool {
+	if hasProp(fc.Props, p) {
+		return true
+	}
+	for _, c := range fc.Ensures {
+		if hasProp(c.Props, p) {
+			return true
+		}
+	}
+	for _, l := range fc.Loops {
+		for _, c := range l.Invs {
+			if hasProp(c.Props, p) {
+				return true
+			}
+		}
+	}
+	for _, cs := range fc.Branches {
+		for _, c := range cs {
+			if hasProp(c.Props, p) {
+				return true
+			}
+		}
+	}
+	return false
+}
+
+func loadKnown(verif string) []KnownFinding {
+	var k []KnownFinding
+	data, err := os.ReadFile(filepath.Join(verif, "known_findings.json"))
+	if err == nil {
+		json.Unmarshal(data, &k)
+	}
+	return k
+}
+
+var unsafeName = regexp.MustCompile(`[^A-Za-z0-9_.#:-]+`)
+
+func runProperty(ctx *Ctx, o *Options, t0 time.Time) int {
+	sp := ctx.specs
+	P := o.Prop
+	seed := 0
+	if s := os.Getenv("VERIF_SEED"); s != "" {
+		seed, _ = strconv.Atoi(s)
+	}
+	var keys []string
+	for k, fc := range sp.Funcs {
+		if fc.Extern || fc.Iface || fc.Trusted {
+			continue
+		}
+		if contractServes(fc, P) {
+			keys = append(keys, k)
+		}
+	}
+	sort.Strings(keys)
+	evPath := filepath.Join(o.Verif, "evidence", P+".json")
+	os.MkdirAll(filepath.Dir(evPath), 0o755)
+	os.Remove(evPath)
+	if len(keys) == 0 {
+		fmt.Printf("UNDECIDED property=%s reason=no-contracts\n", P)
+		return 2
+	}
+	tmp, _ := os.MkdirTemp("", "gcv")
+	defer os.RemoveAll(tmp)
+	solver := &Solver{Dir: tmp, Timeout: o.Timeout, All: o.Tier == "thorough"}
+	if os.Getenv("GCV_CACHE") != "" {
+		solver.cacheDir = filepath.Join(o.Verif, ".cache", "smt")
+	}
+	// 1. generate obligations (functions in parallel)
+	results := make([]*funcResult, len(keys))
+	var wg sync.WaitGroup
+	sem := make(chan struct{}, 8)
+	for i, key := range keys {
+		wg.Add(1)
+		go func(i int, key string) {
+			defer wg.Done()
+			sem <- struct{}{}
+			defer func() { <-sem }()
+			fr := &funcResult{key: key}
+			results[i] = fr
+			fn := ctx.findFunc(key)
+			if fn == nil {
+				fr.skip = "contract-binding: function " + key + " not found in the source"
+				return
+			}
+			ex := NewExec(ctx, fn, sp.Funcs[key], P == "C14")
+			ex.canaries = true
+			func() {
+				defer func() {
+					if r := recover(); r != nil {
+						ex.errs = append(ex.errs, fmt.Sprintf("engine failure: %v", r))
+					}
+				}()
+				ex.Verify()
+			}()
+			fr.ex = ex
+		}(i, key)
+	}
+	wg.Wait()
+	var all []*Obligation
+	for _, fr := range results {
+		if fr.ex != nil {
+			all = append(all, fr.ex.obls...)
+		}
+	}
+	solver.SolveAll(sp, all, o.Workers)
+
+	// 2. judge
+	known := loadKnown(o.Verif)
+	var undecided []string
+	var violations []string
+	var knownHit []string
+	var notes []string
+	var reports []oblReport
+	externs := map[string]bool{}
+	assumed := map[string]bool{}
+	inlined := map[string]bool{}
+	var funcs []string
+	nObl, nDis := 0, 0
+	var solverTime float64
+	backendCount := map[string]int{}
+	var samples []interface{}
+	for _, fr := range results {
+		if fr.skip != "" {
+			undecided = append(undecided, fr.skip)
+			continue
+		}
+		ex := fr.ex
+		funcs = append(funcs, fr.key)
+		for e := range ex.externs {
+			externs[e] = true
+		}
+		for e := range ex.assumed {
+			assumed[e] = true
+		}
+		for e := range ex.inlined {
+			inlined[e] = true
+		}
+		for _, e := range ex.errs {
+			undecided = append(undecided, fr.key+": "+e)
+		}
+		if ex.retCount == 0 && len(ex.errs) == 0 {
+			undecided = append(undecided, fr.key+": vacuity: no return path was reached")
+		}
+		for _, g := range groupObls(ex.obls) {
+			first := firstObl(ex.obls, g.name)
+			if first.Kind == "canary" {
+				// must NOT be provable: at least one instance not unsat
+				if len(g.fail) == 0 {
+					undecided = append(undecided, "vacuity: "+g.name+" (assumptions are contradictory)")
+				}
+				continue
+			}
+			mine := hasProp(first.Props, P) || len(first.Props) == 0
+			var bs []string
+			for b := range g.back {
+				if b != "" {
+					bs = append(bs, b)
+					backendCount[b] += 1
+				}
+			}
+			sort.Strings(bs)
+			res := "discharged"
+			if len(g.fail) > 0 {
+				res = "failed:" + g.fail[0].Result.Status
+			}
+			solverTime += g.secs
+			if !mine {
+				if len(g.fail) > 0 {
+					notes = append(notes, fmt.Sprintf("NOTE other-property obligation failed (%s): %s", strings.Join(first.Props, ","), g.name))
+				}
+				continue
+			}
+			nObl++
+			rep := oblReport{Name: g.name, Instances: g.n, Result: res, Backends: bs, SolverS: round3(g.secs), Clause: first.Src, Where: first.Where}
+			if first.Result != nil {
+				rep.SMTBytes = first.Result.Size
+			}
+			reports = append(reports, rep)
+			if len(samples) < 4 && first.Result != nil && first.Result.Backend != "constant-folding" {
+				samples = append(samples, map[string]interface{}{"obligation": g.name, "clause": first.Src, "instances": g.n, "smt_bytes": first.Result.Size, "backend": first.Result.Backend})
+			}
+			if len(g.fail) == 0 {
+				nDis++
+				continue
+			}
+			// failed: known finding?
+			isKnown := false
+			for _, k := range known {
+				if k.Property == P && k.Status == "open" && k.Obligation == g.name {
+					isKnown = true
+					knownHit = append(knownHit, fmt.Sprintf("KNOWN-FINDING: property=%s %s %s", P, g.name, k.What))
+				}
+			}
+			if isKnown {
+				nDis++ // accounted for (listed finding), not counted as a violation
+				continue
+			}
+			path := writeReplay(ctx, o, solver, P, g, first)
+			violations = append(violations, path)
+		}
+	}
+	sort.Strings(undecided)
+	wall := time.Since(t0).Seconds()
+	// 3. evidence
+	var trusted []string
+	trusted = append(trusted, "go/packages + go/ssa (x/tools v0.29.0, naive form) build the IR of /repo's working tree faithfully",
+		"gcv's SSA-to-SMT encoding (this repository, engine/) and its axioms for byte strings (specs/00_builtin.spec)",
+		"z3 5.1.0 / z3 4.8.12 / cvc5 1.0 soundness")
+	var ext []string
+	for e := range externs {
+		ext = append(ext, e)
+	}
+	sort.Strings(ext)
+	var ass []string
+	ass = append(ass, "machine integers treated as mathematical integers except unsigned subtraction, %, shifts by constants and narrowing conversions",
+		"floating point operations are uninterpreted (no rounding model)",
+		"each function is verified as sequential code; goroutines are not interleaved",
+		"calls to logrus, fmt.Print* and metrics timers/histograms are erased; log.IsLevelEnabled is taken as false",
+		"method receivers are non-nil at entry of the verified function")
+	for a := range assumed {
+		ass = append(ass, a)
+	}
+	for _, e := range ext {
+		ass = append(ass, "assumed contract (extern): "+e)
+	}
+	sort.Strings(ass[5:])
+	var inl []string
+	for e := range inlined {
+		inl = append(inl, e)
+	}
+	sort.Strings(inl)
+	if len(samples) == 0 {
+		samples = append(samples, map[string]interface{}{"note": "no solver-discharged obligation in this run"})
+	}
+	ev := map[string]interface{}{
+		"property_id": P,
+		"tier":        o.Tier,
+		"seed":        seed,
+		"level":       "proof",
+		"coverage": map[string]interface{}{
+			"obligations":               nObl,
+			"discharged":                nDis,
+			"checker_cmd":               fmt.Sprintf("/verif/bin/gcv -prop %s -tier %s (obligations discharged by z3-new / z3 / cvc5, timeout %ds per back end)", P, o.Tier, o.Timeout),
+			"trusted_base":              trusted,
+			"functions_under_contract":  funcs,
+			"inlined_uncontracted":      inl,
+			"externs_assumed":           ext,
+			"per_obligation":            reports,
+			"obligation_instances":      len(all),
+			"backends":                  backendCount,
+			"solver_s":                  round3(solverTime),
+			"samples":                   samples,
+			"known_findings_reproduced": knownHit,
+			"undecided":                 undecided,
+			"contract_files":            shortPaths(sp.Files),
+		},
+		"assumptions": ass,
+		"wall_s":      round3(wall),
+		"violations":  len(violations),
+	}
+	data, _ := json.MarshalIndent(ev, "", " ")
+	os.WriteFile(evPath, data, 0o644)
+	// 4. verdict lines
+	for _, n := range notes {
+		fmt.Println(n)
+	}
+	for _, k := range knownHit {
+		fmt.Println(k)
+	}
+	fmt.Printf("property %s: %d functions, %d obligations (%d instances), %d discharged, %.1fs\n", P, len(funcs), nObl, len(all), nDis, wall)
+	if len(violations) > 0 {
+		for _, v := range violations {
+			fmt.Println(v)
+		}
+		return 1
+	}
+	if len(undecided) > 0 {
+		for _, u := range undecided {
+			fmt.Printf("UNDECIDED property=%s reason=%s\n", P, u)
+		}
+		return 2
+	}
+	if nObl == 0 {
+		fmt.Printf("UNDECIDED property=%s reason=zero-obligations\n", P)
+		return 2
+	}
+	return 0
+}
+
+func shortPaths(ps []string) []string {
+	var out []string
+	for _, p := range ps {
+		out = append(out, shortPath(p))
+	}
+	return out
+}
+
+func round3(f float64) float64 { return float64(int(f*1000+0.5)) / 1000 }
+
+func firstObl(obls []*Obligation, name string) *Obligation {
+	var first *Obligation
+	for _, o := range obls {
+		if o.Name == name {
+			if first == nil {
+				first = o
+			}
+			if o.Result != nil && o.Result.Status != "unsat" {
+				return o
+			}
+		}
+	}
+	return first
+}
+
+// writeReplay records a failed obligation, looks for a candidate model (the query without
+// quantified assumptions), runs the per-function replay harness on the real code and returns
+// the VIOLATION line.
+func writeReplay(ctx *Ctx, o *Options, solver *Solver, P string, g *group, ob *Obligation) string {
+	dir := filepath.Join(o.Verif, "replay", P)
+	os.MkdirAll(dir, 0o755)
+	path := filepath.Join(dir, unsafeName.ReplaceAllString(g.name, "_")+".json")
+	rec := map[string]interface{}{
+		"property":   P,
+		"obligation": g.name,
+		"clause":     ob.Src,
+		"where":      ob.Where,
+		"solver":     ob.Result.Tried,
+		"status":     ob.Result.Status,
+		"output":     ob.Result.Output,
+		"path_trace": ob.Trace,
+	}
+	model := ob.Result.Model
+	if model == "" {
+		model = candidateModel(ctx.specs, solver, ob)
+		rec["model_kind"] = "candidate (quantified assumptions dropped)"
+	} else {
+		rec["model_kind"] = "solver model"
+	}
+	vals := modelValues(model)
+	rec["model"] = vals
+	confirmed, out, cmd := runHarness(o, ob, vals)
+	rec["replay_cmd"] = cmd
+	rec["replay_output"] = out
+	rec["confirmed_on_real_code"] = confirmed
+	data, _ := json.MarshalIndent(rec, "", " ")
+	os.WriteFile(path, data, 0o644)
+	line := fmt.Sprintf("VIOLATION property=%s replay=%s obligation=%s", P, path, g.name)
+	if !confirmed {
+		line += " no-failing-input-found"
+	}
+	return line
+}
+
+func candidateModel(sp *Specs, solver *Solver, ob *Obligation) string {
+	q := buildQuery(sp, ob, true)
+	var keep []string
+	for _, l := range strings.Split(q, "\n") {
+		if strings.HasPrefix(l, "(assert") && (strings.Contains(l, "(forall ") || strings.Contains(l, "(exists ")) {
+			continue
+		}
+		if strings.HasPrefix(l, "(check-sat)") {
+			continue
+		}
+		keep = append(keep, l)
+	}
+	keep = append(keep, "(check-sat)", "(get-model)")
+	file := filepath.Join(solver.Dir, fmt.Sprintf("cand%d.smt2", time.Now().UnixNano()))
+	os.WriteFile(file, []byte(strings.Join(keep, "\n")), 0o644)
+	defer os.Remove(file)
+	status, out, _ := runSolver(solvers[0], file, 10)
+	if status == "sat" {
+		return out
+	}
+	return ""
+}
+
+// modelValues extracts the integer/bool constants of a model that name parameters (p.*) and
+// results, as a flat map usable by the replay harnesses.
+func modelValues(model string) map[string]string {
+	vals := map[string]string{}
+	if model == "" {
+		return vals
+	}
+	for _, e := range parseSExps(model) {
+		for _, d := range e.List {
+			if d.head() != "define-fun" || len(d.List) != 5 {
+				continue
+			}
+			name := d.List[1].Atom
+			if len(d.List[2].List) != 0 {
+				continue
+			}
+			if !(strings.HasPrefix(name, "p.") || strings.HasPrefix(name, "res") || strings.HasPrefix(name, "loop.")) {
+				continue
+			}
+			vals[name] = d.List[4].String()
+		}
+	}
+	return vals
+}
+
+// runHarness runs the replay harness of the function's package (if one exists) against the real code.
+func runHarness(o *Options, ob *Obligation, vals map[string]string) (bool, string, string) {
+	parts := strings.Split(ob.Func, ".")
+	pkg := parts[0]
+	hfile := filepath.Join(o.Verif, "harness", pkg, "replay_test.go")
+	if _, err := os.Stat(hfile); err != nil {
+		return false, "no replay harness for package " + pkg, ""
+	}
+	pkgDir := ""
+	filepath.Walk(o.Repo, func(p string, info os.FileInfo, err error) error {
+		if err == nil && info.IsDir() && filepath.Base(p) == pkg && pkgDir == "" && !strings.Contains(p, "/vendor/") {
+			pkgDir = p
+		}
+		return nil
+	})
+	if pkgDir == "" {
+		return false, "package directory not found", ""
+	}
+	tmp, _ := os.MkdirTemp("", "gcvreplay")
+	defer os.RemoveAll(tmp)
+	ov := map[string]interface{}{"Replace": map[string]string{filepath.Join(pkgDir, "zz_verif_replay_test.go"): hfile}}
+	ovData, _ := json.Marshal(ov)
+	ovFile := filepath.Join(tmp, "ov.json")
+	os.WriteFile(ovFile, ovData, 0o644)
+	mv, _ := json.Marshal(vals)
+	test := "TestReplay_" + unsafeName.ReplaceAllString(strings.Join(parts[1:], "_"), "_")
+	args := []string{"test", "-overlay", ovFile, "-vet=off", "-count=1", "-timeout", "120s", "-run", "^" + test + "$", "."}
+	cmd := exec.Command("go", args...)
+	cmd.Dir = pkgDir
+	cmd.Env = append(os.Environ(), "GOFLAGS=-mod=mod", "GOPROXY=off", "GOSUMDB=off", "GOTOOLCHAIN=local",
+		"VERIF_OBLIGATION="+ob.Name, "VERIF_MODEL="+string(mv))
+	out, _ := cmd.CombinedOutput()
+	s := string(out)
+	if len(s) > 4000 {
+		s = s[:4000]
+	}
+	cmdStr := fmt.Sprintf("cd %s && VERIF_OBLIGATION='%s' go test -overlay <{\"Replace\":{\"%s/zz_verif_replay_test.go\":\"%s\"}}> -vet=off -count=1 -timeout 120s -run '^%s$' .", pkgDir, ob.Name, pkgDir, hfile, test)
+	return strings.Contains(s, "REPLAY-CONFIRMED"), s, cmdStr
+}
